@@ -84,17 +84,44 @@ def from_vector_rules(chk, repo, rid):
     ok = ok and len(dl) == 1 and norm(dl[0].value) == f'{V}.shape[0]'
     chk.ob(rid, where(repo, fi, svd[0]), 'from_vector: site i splits off (left bond x d) against the remaining sites',
            bool(ok), norm(m)[:80], key=f'{rid}|from_vector|matrix')
-    # singular values go to the right factor, site tensor is u reshaped (l, p, r) -> (p, l, r)
-    sv = [s for s in loop[0].body if isinstance(s, ast.Assign) and norm(s.targets[0]) == V and
-          norm(s.value) in (f'{V} * {S}[:, None]', f'{S}[:, None] * {V}')] if loop else []
-    chk.ob(rid, where(repo, fi, sv[0] if sv else fi.node), 'from_vector: singular values are carried to the right (rows of v)',
-           len(sv) == 1, '', key=f'{rid}|from_vector|sigma')
-    st = [s for s in (loop[0].body if loop else []) if isinstance(s, ast.Assign) and norm(s.targets[0]).startswith('mps.A[')]
-    ok = len(st) == 1 and b is not None and \
-        norm(st[0].value) == f'{U}.reshape(({b["__D"]}, d, len({S}))).transpose((1, 0, 2))' and \
-        norm(st[0].targets[0]) == f'mps.A[{b["__i"]}]'
-    chk.ob(rid, where(repo, fi, st[0] if st else fi.node), 'from_vector: site tensor is u reshaped (left, phys, right) and '
-           'transposed to (phys, left, right)', ok, norm(st[0].value)[:80] if st else '', key=f'{rid}|from_vector|site')
+    # leg domain: v = (left bond) x (phys_i, remaining sites); the loop body must produce a site tensor
+    # (phys, left, new bond) and a new v = (new bond) x (remaining sites) carrying the singular values
+    from .. import legs as lg
+    from ..legs import LegError, TVal
+    from ..legs_interp import LegInterp
+    sv = []
+    if loop:
+        i = norm(loop[0].target)
+        v0 = lg.param_tensor(V, 2, composite={1: [('d', None), (f'd ** (nsites - {i} - 1)', None)]})
+        body = [s for s in loop[0].body if not isinstance(s, ast.Assert)]
+        w = where(repo, fi, loop[0])
+        try:
+            it = LegInterp(fi, {V: v0}, repo=repo, body=body)
+            it.run()
+            site = it.env.get(f'@mps.A[{i}]')
+            vn = it.env.get(V)
+            ok_site = isinstance(site, TVal) and site.rank == 3 and [[l.dim for l in ax] for ax in site.axes][:2] == \
+                [['d'], [f'{V}.0']] and len(site.axes[2]) == 1 and site.axes[2][0].tag == 'bond'
+            chk.ob(rid, w, 'from_vector: site tensor has the layout (physical, left bond, new bond)', ok_site,
+                   f'{[[l.dim for l in ax] for ax in site.axes] if isinstance(site, TVal) else site}', key=f'{rid}|from_vector|site')
+            ok_v = isinstance(vn, TVal) and vn.rank == 2 and len(vn.axes[0]) == 1 and vn.axes[0][0].tag == 'bond' and \
+                [l.dim for l in vn.axes[1]] == [f'd ** (nsites - {i} - 1)']
+            chk.ob(rid, w, 'from_vector: the remainder is (new bond) x (remaining sites)', ok_v,
+                   f'{[[l.dim for l in ax] for ax in vn.axes] if isinstance(vn, TVal) else vn}', key=f'{rid}|from_vector|remainder')
+            okg, detail = False, ''
+            if ok_site and ok_v:
+                new = lg.tensordot(site, vn, [2], [0], 'new bond')
+                red, applied, problems = lg.apply_rules(new)
+                c = lg.canon(red)
+                okg = not problems and len(applied) == 1 and c['open'] == [(f'{V}.1a',), (f'{V}.0',), (f'{V}.1b',)] and \
+                    not c['pairs'] and not red.net.weights
+                detail = '; '.join(problems) or f'open {c["open"]}'
+            chk.ob(rid, w, 'from_vector: site tensor times remainder reproduces the matrix that was split (singular values '
+                   'enter exactly once)', okg, detail, key=f'{rid}|from_vector|gauge')
+        except LegError as ex:
+            chk.ob(rid, w, 'from_vector: loop body is well-formed in the leg domain', False, str(ex),
+                   key=f'{rid}|from_vector|wellformed')
+        sv = [s for s in loop[0].body if isinstance(s, ast.Assign) and norm(s.targets[0]) == V]
     lab = [s for s in (loop[0].body if loop else []) if isinstance(s, ast.Assign) and norm(s.targets[0]).startswith('mps.qD[')]
     ok = len(lab) == 1 and b is not None and norm(lab[0].targets[0]) == f'mps.qD[{b["__i"]} + 1]' and \
         f'len({S})' in norm(lab[0].value) and lab[0].lineno > (sv[0].lineno if sv else 0)
